@@ -80,6 +80,7 @@ func (isn *InlineSchemaNamer) Name(key string, schema *spec.Schema, aschema *Ana
 
 		// save cloned schema to definitions
 		schutils.Save(isn.Spec, newName, sch)
+		verifEmit("name", isn.Spec, key, newName)
 
 		// keep track of created refs
 		if isn.flattenContext == nil {
